@@ -73,6 +73,7 @@ type Path struct {
 	tvars        map[*Term][]*Term
 	Shortcuts    int
 	unsent       []*Term
+	syncSt       *syncState
 }
 
 // varInfo tracks the remaining domain of a small-range variable as long as
